@@ -34,19 +34,24 @@ fn set_host_header<B>(request: &mut http::Request<B>) {
 
     let uri = request.uri().clone();
 
-    request
-        .headers_mut()
-        .entry(http::header::HOST)
-        .or_insert_with(|| {
-            let hostname = uri.host().expect("authority implies host");
-            if let Some(port) = get_non_default_port(&uri) {
-                let s = format!("{}:{}", hostname, port);
-                HeaderValue::from_str(&s)
-            } else {
-                HeaderValue::from_str(hostname)
-            }
-            .expect("uri host is valid header value")
-        });
+    // `try_entry`, not `entry`: a header map that already holds the maximum number of names the
+    // `http` crate allows cannot reserve room for another one, and `entry` panics there (even when
+    // the Host header is already present).
+    let Ok(entry) = request.headers_mut().try_entry(http::header::HOST) else {
+        tracing::warn!("request header map is full, host header not set");
+        return;
+    };
+
+    entry.or_insert_with(|| {
+        let hostname = uri.host().expect("authority implies host");
+        if let Some(port) = get_non_default_port(&uri) {
+            let s = format!("{}:{}", hostname, port);
+            HeaderValue::from_str(&s)
+        } else {
+            HeaderValue::from_str(hostname)
+        }
+        .expect("uri host is valid header value")
+    });
 }
 
 /// Middleware which sets the Host header on requests.
